@@ -148,6 +148,7 @@ def check(ctx):
         got = kw.get(key)
         ctx.decide(got == want, "C12-R1", cnode, SEL, "SelectionKeyword", "meaning of %s" % key, "atom.%s" % ".".join(map(str, want)),
                    "keyword `%s` (%s) is mapped to %s, documented meaning is atom.%s" % (key, desc.strip()[:50], got, ".".join(map(str, want))))
+    _keywords_through_edits(ctx, kw, cnode)
     for k in sorted(set(kw) - documented):
         ctx.note("C12-R1", cnode, SEL, "SelectionKeyword", "keyword %s" % k, "exists in the grammar but not in the documentation table (-> %s)" % (kw[k],))
 
@@ -313,6 +314,122 @@ def check(ctx):
     ctx.decide(not both, "C12-R7", cnode, SEL, "SelectionKeyword", "aliases and operators are disjoint", "", "spellings %s are both keyword and operator" % both)
     dup = [k for k in set(k for k, _, _ in kw_tab) if sum(1 for k2, _, _ in kw_tab if k2 == k) > 1]
     ctx.decide(not dup, "C12-R7", cnode, SEL, "SelectionKeyword", "no alias listed twice", "", "aliases %s are listed under two keywords (the later silently wins)" % dup)
+
+
+def _module_constants(ctx, rel):
+    """the module-level constants of a data module (frozenset(...) / dict / list literals, X.keys(), unions), read from its source"""
+    env = {}
+
+    def ev(e):
+        if isinstance(e, ast.Name) and e.id in env:
+            return env[e.id]
+        if isinstance(e, ast.Call) and call_name(e) in ("frozenset", "set", "list", "tuple", "sorted") and len(e.args) <= 1:
+            v = ev(e.args[0]) if e.args else ()
+            return {"frozenset": frozenset, "set": set, "list": list, "tuple": tuple, "sorted": sorted}[call_name(e)](v)
+        if isinstance(e, ast.Call) and isinstance(e.func, ast.Attribute) and e.func.attr in ("keys", "values") and not e.args:
+            d = ev(e.func.value)
+            return list(d.keys() if e.func.attr == "keys" else d.values())
+        if isinstance(e, ast.BinOp) and isinstance(e.op, (ast.BitOr, ast.Add)):
+            a, b = ev(e.left), ev(e.right)
+            return a | b if isinstance(e.op, ast.BitOr) else a + b
+        if isinstance(e, (ast.List, ast.Tuple, ast.Set)):
+            vals = [ev(x) for x in e.elts]
+            return vals if isinstance(e, ast.List) else (tuple(vals) if isinstance(e, ast.Tuple) else set(vals))
+        if isinstance(e, ast.Dict):
+            return {ev(k): ev(v) for k, v in zip(e.keys, e.values)}
+        return ast.literal_eval(e)
+    for n in ctx.py.mod(rel).tree.body:
+        if isinstance(n, ast.Assign) and len(n.targets) == 1 and isinstance(n.targets[0], ast.Name):
+            try:
+                env[n.targets[0].id] = ev(n.value)
+            except (ValueError, TypeError, KeyError, SyntaxError):
+                pass
+    return env
+
+
+def _keywords_through_edits(ctx, kw, cnode):
+    """Every attribute chain behind a keyword evaluated (sa/tensym.py; Topology / Chain / Residue / Atom instantiated from their source, the residue
+    tables read from residue_names.py) on every atom of a model topology - built through add_chain / add_residue / add_atom / add_bond - at four
+    points of a history: as built, after insert_atom at the front of a residue (every later atom is renumbered), after delete_atom_by_index, after
+    add_bond.  The positional keywords are what the live lists say (index: the place in the atom list, resid / chainid likewise, n_bonds: the number
+    of bonds that hold the atom); every other keyword keeps, for each atom object, the value it had - nothing is served from a table filled at an
+    earlier point of the history."""
+    from .c04 import _TopWorld
+    from ..tensym import Raised, Obj
+    from ..pysym import Unsupported as PUnsupported
+    RN = "mdtraj/core/residue_names.py"
+    chains = sorted({v for v in kw.values() if v and v[0] != "const"}, key=str)
+    try:
+        W = _TopWorld(ctx)
+        consts = {k: v for k, v in _module_constants(ctx, RN).items() if k.startswith("_")}
+        ts = W.evaluator(env=consts)
+        ts.module_env = dict(consts)
+        top = W.build(ts)
+    except (Raised, PUnsupported) as e:
+        ctx.undecided("C12-R1", cnode, SEL, "SelectionKeyword", "keyword attributes through a history of edits", "the model topology cannot be built: %s" % e)
+        return
+
+    def get(o, chain):
+        ts.env["__probe__"] = o
+        e = ast.Name(id="__probe__", ctx=ast.Load())
+        for c in chain:
+            e = ast.Attribute(value=e, attr=c, ctx=ast.Load())
+        return ts.pyval(ts.ex(e))
+
+    def positional(chain):
+        at = list(top._atoms)
+        if chain == ("index",):
+            return {id(a): k for k, a in enumerate(at)}
+        if chain == ("n_bonds",):
+            return {id(a): sum(1 for b in top._bonds if b.atom1 is a or b.atom2 is a) for a in at}
+        if chain == ("residue", "index"):
+            return {id(a): next(k for k, r in enumerate(top._residues) if r is a.residue) for a in at}
+        if chain == ("residue", "chain", "index"):
+            return {id(a): next(k for k, c in enumerate(top._chains) if c is a.residue.chain) for a in at}
+        return None
+    history = [("as built", lambda: None),
+               ("after insert_atom(..., index=0)", lambda: W.call(ts, top, "insert_atom", "X", W.EL["H"], top._residues[0], index=0)),
+               ("after delete_atom_by_index(3)", lambda: W.call(ts, top, "delete_atom_by_index", 3)),
+               ("after add_bond(atom 0, atom 2)", lambda: W.call(ts, top, "add_bond", top._atoms[0], top._atoms[2]))]
+    problems = {c: [] for c in chains}
+    undec = {}
+    first = {c: {} for c in chains}
+    for when, step in history:
+        try:
+            step()
+        except (Raised, PUnsupported) as e:
+            ctx.undecided("C12-R1", cnode, SEL, "SelectionKeyword", "keyword attributes through a history of edits", "%s: %s" % (when, e))
+            return
+        for c in chains:
+            if c in undec:
+                continue
+            try:
+                got = {id(a): get(a, c) for a in top._atoms}
+            except Raised as e:
+                problems[c].append("%s: atom.%s raises %s" % (when, ".".join(c), e.exc or e))
+                continue
+            except PUnsupported as e:
+                undec[c] = "%s: not evaluable: %s" % (when, e)
+                continue
+            want = positional(c)
+            if want is not None:
+                bad = [k for k, a in enumerate(top._atoms) if got[id(a)] != want[id(a)]]
+                if bad:
+                    problems[c].append("%s: atom.%s of the atoms is %s, the topology says %s" % (when, ".".join(c), [got[id(a)] for a in top._atoms], [want[id(a)] for a in top._atoms]))
+            else:
+                for k, a in enumerate(top._atoms):
+                    if id(a) in first[c] and first[c][id(a)] != got[id(a)]:
+                        problems[c].append("%s: atom.%s of the atom now at index %d is %r, it was %r before the edit (which did not touch it)" % (when, ".".join(c), k, got[id(a)], first[c][id(a)]))
+                        break
+                for a in top._atoms:
+                    first[c].setdefault(id(a), got[id(a)])
+    for c in chains:
+        words = sorted(k for k, v in kw.items() if v == c)
+        desc = "atom.%s (%s) as built, after insert_atom, delete_atom_by_index, add_bond: the value of the live topology" % (".".join(c), " / ".join(words[:3]))
+        if c in undec:
+            ctx.undecided("C12-R1", cnode, SEL, "SelectionKeyword", desc, undec[c])
+        else:
+            ctx.decide(not problems[c], "C12-R1", cnode, SEL, "SelectionKeyword", desc, "", "; ".join(problems[c][:2]))
 
 
 # ---------------------------------------------------------------------------------------------------
